@@ -103,6 +103,9 @@ def constantTimeCompare (x y : List (BitVec 8)) : Int := if x = y then 1 else 0
 /-- `subtle.ConstantTimeSelect(v, x, y)`, the library's own expression `^(v-1)&x | (v-1)&y` on `int` -/
 def constantTimeSelect (v x y : Int) : Int := orInt (andInt (xorInt (v - 1) (-1)) x) (andInt (v - 1) y)
 
+/-- `strings.HasSuffix(s, suffix)` on the bytes of the strings -/
+def hasSuffix (s suffix : List (BitVec 8)) : Bool := suffix.isSuffixOf s
+
 /-- `h != nil` for a `hash.Hash` -/
 def Hmac.present (h : Hmac) : Bool := h.alg != .none
 
